@@ -75,6 +75,10 @@ add("C02", "runtime monitoring: boundary monitor on TimeReversedSolver.solve; th
     "Targets: every labelled graph on <=4 (thorough <=5) vertices, random / tree / cycle / complete / repeater / lattice / disjoint-union graphs up to 14 vertices in permuted orders, presented as graph, stabilizer (random generating set) and density-matrix QuantumState. For each returned circuit: validate(), DAG invariants, every outcome branch must end in |G><G| (x) |0..0>_emitters exactly (dense up to 7 qubits, stabilizer groups above), both real compilers are followed step by step under forced 0 / forced 1 / probabilistic outcomes, and the reported score must be the true infidelity 0.",
     TRUST + "Known finding trs-isolated-vertex (IndexError for targets with an isolated vertex) is reported, not hidden.", "DESIGN.md section 5, C02")
 
+add("C04", "runtime monitoring: sys.monitoring probes on the seven mutation moves check, at the return of every move (driven directly or inside solve()), the emission structure, the DAG invariants and the survival of every 'Fixed' emission / measure-and-reset operation present before the move",
+    "Initial circuits for all small (n_photon, n_emitter) with random assignments and TimeReversedSolver outputs are mutated by random sequences of up to 300 moves (uniform and with the solvers' own probabilities), and complete EvolutionarySolver / HybridEvolutionarySolver runs with small populations are observed; after every move: validate(), structural DAG check, no photon-photon two-qubit operation, first operation of every photon is its emission CNOT from an emitter, afterwards only one-qubit gates or measurement-controlled corrections targeting it, no Fixed emission CNOT / measure-and-reset lost.",
+    TRUST, "DESIGN.md section 5, C04")
+
 NOT_YET = {
 }
 
